@@ -18,7 +18,8 @@ RULE = ("cases = field operations executed on the real classes (12 shipped class
         "four base classes against pv.model.gf (generic GF(p^k) arithmetic, inverse by textbook polynomial Euclid), every constructed element "
         "by the canonical-storage invariant; the driver additionally evaluates associativity/commutativity/distributivity/inverse/division/"
         "power laws and equality on library outputs; W4 enumerates small fields completely; distinct = distinct (class, op, operands); "
-        "non-trivial = operands other than the suite's 2, 7, 9, 11, [1,2], [1..12]")
+        "non-trivial = operands other than the suite's 2, 7, 9, 11, [1,2], [1..12]"
+        " Primes just below a power of two with top-of-range coefficients (degrees 2, 12); a concurrent phase repeats products, quotients and powers of every concrete extension class in 4 threads and requires the single-threaded values.")
 ASSUMPTIONS = ["element construction is from homogeneous coefficient sequences (all ints, or all FQ objects of the same field)",
                "FQ(3) == 3 + p being False is not flagged: 'integer operands act as residues' is applied to arithmetic operators only"]
 SUITE_TRIVIAL = {(2,), (7,), (9,), (11,), (1, 2), tuple(range(1, 13))}
